@@ -1,7 +1,7 @@
 (** * Mesh_witness: concrete inputs (binary64, the executed instance) on which the faithful model -- and the
     crate, checked through the harness, see NOTES.md -- violates a property.  Each is evaluated by vm_compute. *)
 From Coq Require Import ZArith Bool List Arith Floats.
-From G3 Require Import Model.Num Model.NumF Model.Base Model.Vec Model.Segment Model.Triangle Model.Loop Model.Polygon Model.Triangulation.
+From G3 Require Import Model.Num Model.NumF Model.Base Model.Vec Model.Segment Model.Triangle Model.Loop Model.Polygon Model.Triangulation Model.PinnedMesh.
 Import ListNotations.
 Local Open Scope float_scope.
 Set Warnings "-inexact-float".
@@ -47,23 +47,34 @@ Lemma w2_fewer_triangles :
     llen (fst (loop_close Lm)) = 8%nat /\ length (tris M) = 5%nat.
 Proof. eexists. eexists. split; [vm_compute; reflexivity|]. split; [vm_compute; reflexivity|]. repeat split; vm_compute; reflexivity. Qed.
 
-(** W3: mesh_polygon on a plain triangle panics ("... don't share a segment", site 64) *)
+(** W3: mesh_polygon on a plain triangle.  Before fix 361bbb9 it panicked ("... don't share a segment", site 64):
+    refine swallowed the Err of a half-updated add_point and carried on with a corrupted mesh.  The steps now
+    refuse before they mutate, and the call succeeds. *)
 Definition w3_poly : Poly float := get dummy_poly (build_poly [p2 0 0; p2 1 0; p2 0.3 0.8] []).
-Lemma w3_mesh_polygon_panics : mesh_polygon 4000 w3_poly (0.4 / 50) 3 = Panic 64%N.
-Proof. vm_compute. reflexivity. Qed.
+Lemma w3_mesh_polygon_now_ok : exists M, mesh_polygon 4000 w3_poly (0.4 / 50) 3 = Ok (M, RDone) /\ forallb tp_valid (tris M) = true.
+Proof. eexists. split; vm_compute; reflexivity. Qed.
 
-(** W4: split_edge at a point 1e-7 from an end of the edge: Err after the base triangle has been invalidated *)
+(** W4: split_edge AS IT WAS BEFORE FIX 361bbb9 at a point 1e-7 from an end of the edge: Err after the base triangle
+    has been invalidated; the live split_edge refuses with the mesh untouched *)
 Definition w4_poly : Poly float := get dummy_poly (build_poly unit_square []).
 Lemma w4_split_edge_half_update :
   exists M M', from_polygon w4_poly = Ok M /\ forallb tp_valid (tris M) = true /\
-    split_edge 0 Ab (p2 1e-7 0) M = (M', Err 10%N) /\ forallb tp_valid (tris M') = false /\ nvalid M' = 1%nat /\ length (tris M') = 2%nat.
+    split_edge_pinned 0 Ab (p2 1e-7 0) M = (M', Err 10%N) /\ forallb tp_valid (tris M') = false /\ nvalid M' = 1%nat /\ length (tris M') = 2%nat.
 Proof. eexists. eexists. split; [vm_compute; reflexivity|]. split; [vm_compute; reflexivity|]. split; [vm_compute; reflexivity|]. repeat split; vm_compute; reflexivity. Qed.
+Lemma w4_split_edge_now_atomic :
+  exists M, from_polygon w4_poly = Ok M /\ split_edge 0 Ab (p2 1e-7 0) M = (M, Err 10%N).
+Proof. eexists. split; vm_compute; reflexivity. Qed.
 
-(** W5: unit square with a pentagonal hole (well conditioned): from_polygon returns Err "non-coplanar" (class 31) *)
+(** W5: unit square with a pentagonal hole (well conditioned).  Before fix df28df6 (Loop3D::push duplicated the
+    last-but-one vertex when the outline went straight back to it, the normal of (a, b, b) became NaN) from_polygon
+    returned Err "non-coplanar" (class 31) here.  It now returns Ok -- but with 5 triangles instead of |L| - 2 = 9:
+    the first ear (0,0) (1,0) (1,1) is clipped at the FIRST occurrence of the bridge vertex (1,1) although the chord
+    (0,0)-(1,1) is a diagonal only at its second occurrence, so the ear swallows the hole (known finding
+    C01:orientation:holes, the same class as W1). *)
 Definition w5_poly : Poly float :=
   get dummy_poly (build_poly unit_square [[p2 0.754 0.584; p2 0.637 0.577; p2 0.607 0.464; p2 0.706 0.4; p2 0.797 0.475]]).
-Lemma w5_from_polygon_err : from_polygon w5_poly = Err 31%N /\ length (pinner w5_poly) = 1%nat.
-Proof. split; vm_compute; reflexivity. Qed.
+Lemma w5_from_polygon_ok : exists M, from_polygon w5_poly = Ok M /\ length (tris M) = 5%nat /\ length (pinner w5_poly) = 1%nat.
+Proof. eexists. split; [vm_compute; reflexivity|]. split; vm_compute; reflexivity. Qed.
 
 (** non-vacuity: the unit square is triangulated, and refined *)
 Lemma w_square_ok : exists M, from_polygon w4_poly = Ok M /\ length (tris M) = 2%nat /\ nvalid M = 2%nat.
